@@ -155,6 +155,17 @@ def c07(tier, seed):
     rep = core.Report("C07", tier, seed)
     rep.assumptions = list(ASSUME)
     run_models(rep, c07_models(tier), clauses_of("C07"))
+    # the account behind the record (Broker.tla): rebalances whose imbalance is a sliver of a contract, below the broker's
+    # epsilon (set to 1/1000 here; the default 1e-7 needs denominators beyond TLC's integers) - whatever the entry lists as
+    # traded was executed and paid for
+    from . import broker_check, props_broker
+    e = F(1, 2048)
+    rq = broker_check.req
+    bm = broker_check.model("sliver-trades", ["S5", "F5"], ["quote", "rebal"], 4, fees="paid", bids=(8,), spreads=(0, 2),
+                            reqs=[rq({"S5": F(1)}, measure="lots"), rq({"S5": 1 + e}, measure="lots"), rq({"F5": e}, measure="lots"),
+                                  rq({"S5": F(1), "F5": F(-1)}, measure="lots")], epsilon=F(1, 1000), maxrebal=3,
+                            invariants=["NoSpuriousFailure"])
+    broker_check.explore_and_replay(rep, bm, {"track_replay"})
     # code -> spec: stamps of the executions recorded from the repository's own back-tests (EnvTrace.tla, clause stamp)
     from . import envtrace_check
     envtrace_check.validate_repo_tests(rep, tier, {"stamp"})
